@@ -103,6 +103,22 @@ CHECKS = {
         technique="TLA+ spec (ReadSession) + trace validation of recorded listing calls against the extracted member map (TraceReadSession)",
         design_ref="3.3, 4 C10",
     ),
+    "C03": dict(
+        level="model_checking",
+        text="ExtractFS.tla is a file system with symbolic links plus _extract/_extract_single transcribed step by step (lexical "
+             "sanitising, duplicate-name suffixes, directory phase, member phase with pathlib-style mkdir-parents / open / touch / "
+             "unlink+symlink, utime+chmod post pass, the resolved-location guard of the repaired tree). TLC checks NoEscape and "
+             "OutsideUntouched for every archive of 1-2 entries of a 13-name x file/dir/8-link-target alphabet and 3 entries of a reduced "
+             "alphabet, destination absolute or None; the unguarded model (tree before the repair) is the negative control. The same "
+             "archives (sampled in quick), hand-written chained-link shapes and random 3-5 entry archives are written by the reference "
+             "writer and extracted by the real code in a sandboxed child under an audit hook that resolves every mutation's location at "
+             "the moment it happens, plus a snapshot of everything around the jail; TLC (TraceExtractFS) re-runs the specification on each "
+             "archive, requires every observed effect inside the destination and reports differences to the model as drift.",
+        note="Trusted: TLC; the audit events open/os.mkdir/os.symlink/os.chmod/os.utime/os.remove/os.rename/os.truncate/os.rmdir/os.link "
+             "cover the mutating calls py7zr makes (the outside snapshot is a second, independent observer). Linux path semantics, run as root.",
+        technique="TLA+ spec (ExtractFS) exhaustively model-checked + real extractions of the same archive alphabets under an audit hook validated against the spec (TraceExtractFS)",
+        design_ref="3.5, 4 C03",
+    ),
 }
 
 NOT_YET = {}  # id -> reason; filled below for every property without a check
